@@ -166,6 +166,8 @@ structure CaseSt where
   faulted : Bool := false           -- an API error was injected somewhere in this case
   tracked : List (Unconf × Bool) := []  -- delivered events, and whether their block was canonical at every height tick since
   fetch : Bool := false
+  hdrs : List (String × Header) := []   -- headers the node has shown for a block hash (a header is a function of the hash)
+  implFrom : Option Int := none         -- next unfetched index according to the implementation's own request log
 
 structure St where
   c : CaseSt := {}
@@ -178,7 +180,9 @@ structure St where
   pages : Nat := 0
   grew : Nat := 0
 
-def CaseSt.addSpec (c : CaseSt) (s : String) : CaseSt := if c.spec.isSome then c else { c with spec := some s }
+/-- A Spec failure is recorded unless an earlier step of the same case already broke the tie (the model state the
+Spec evaluation leans on would then be unreliable); within one step the Spec is evaluated before the comparison. -/
+def CaseSt.addSpec (c : CaseSt) (s : String) : CaseSt := if c.spec.isSome || c.diff.isSome then c else { c with spec := some s }
 def CaseSt.addDiff (c : CaseSt) (s : String) : CaseSt := if c.diff.isSome then c else { c with diff := some s }
 
 def flush (st : St) : St × List String :=
@@ -311,6 +315,17 @@ def doHunconf (st : St) (id : String) (fs : List String) : St × List String :=
     single st id spec diff
   | _, _, _, _, _ => single st id none (some "unparsable hunconf line")
 
+/-- `_fetchHeight` while the poller is enabled: every polled height is passed on (changed or not), an error is reported. -/
+def doFheight (st : St) (id : String) (fs : List String) : St × List String :=
+  match kv fs "seq", kv fs "got" with
+  | some seq, some got =>
+    let seq := splitList seq ","
+    let got := splitList got ","
+    let exp := (seq.takeWhile (· ≠ "e")) ++ (if seq.contains "e" then ["e"] else [])
+    let spec := if got.contains "stall" then some s!"height-not-resent the height poller stopped passing heights on: polled {seq}, passed on {got}" else none
+    single st id spec (if got ≠ exp then some s!"_fetchHeight model={exp} impl={got}" else none)
+  | _, _ => single st id none (some "unparsable fheight line")
+
 /-! ## re-observation -/
 
 def reobsTrace (cfg : Cfg) (tbl : TiTable) (node : ReobsNode) (statusRaw : String) (chain hashLen : Nat) (tx : String) : List String :=
@@ -362,7 +377,8 @@ def doReobs (st : St) (id : String) (fs : List String) : St × List String :=
       let reqs := splitList reqs ","
       let bhOk : Option String := match node.status with | some (.confirmed bh) => some bh | _ => none
       let spec : Option String :=
-        if res ≠ "ok" then some s!"reobs-panic handleObsvRequest {res}" else
+        if res ≠ "ok" then some (if lastIsTi reqs then s!"metadata-call-panic handleObsvRequest {res} inside the token metadata call"
+                                 else s!"reobs-panic handleObsvRequest {res}") else
         impl.findSome? fun p =>
           let cands : List (List (String × Bool)) := (evs.getD []).filterMap fun e =>
             match e.conv, o.hdr e.block with
@@ -407,10 +423,11 @@ def doWinit (st : St) (id : String) (fs : List String) : St × List String :=
             let c := { c with st := { c.st with alive := false }, faulted := true }
             if exit then c else c.addDiff "count error at start: model ends, impl continues"
           else if r = "count>404" then
+            let c := { c with implFrom := some 0 }
             if exit then c.addDiff "count 404 at start: impl ended" else c
           else match (if r.startsWith "count>" then parseInt (r.drop 6).toString else none) with
             | some n =>
-              let c := { c with st := { c.st with fromIndex := n } }
+              let c := { c with st := { c.st with fromIndex := n }, implFrom := some n }
               if exit then c.addDiff "impl ended on a successful first count" else c
             | none => if r.startsWith "count@" then c.addSpec s!"wrong-contract-polled {r}" else c.addDiff s!"unexpected first request {r}"
         | l => c.addDiff s!"unexpected requests at start {l}"
@@ -494,8 +511,8 @@ def doWtick (st : St) (fs : List String) : St × List String :=
           c.addSpec (if lastIsTi reqs then "metadata-call-panic the fetch loop panicked inside the token metadata call of an attestation-shaped event" else "watcher-panic the fetch loop panicked")
         else if exit && !injected then
           c.addSpec "malformed-event-ends-watcher the fetch loop reported an error although every node request succeeded (an event that does not convert ends the watcher)"
-        else if firstStart.isSome && firstStart ≠ some c.st.fromIndex then
-          c.addSpec s!"page-gap-or-overlap first page requested at {firstStart.getD 0}, next unfetched index is {c.st.fromIndex}"
+        else if firstStart.isSome && c.implFrom.isSome && firstStart ≠ c.implFrom then
+          c.addSpec s!"page-gap-or-overlap first page requested at {firstStart.getD 0}, but the previous tick ended at nextStart {c.implFrom.getD 0}"
         else if gap then
           c.addSpec s!"page-gap-or-overlap page requests do not continue at the previous nextStart: {nonTi}"
         else match implOut with
@@ -512,7 +529,8 @@ def doWtick (st : St) (fs : List String) : St × List String :=
         else if reqs ≠ expLog then c.addDiff s!"fetch tick requests: model={expLog} impl={reqs}"
         else if s'.enabled ≠ en then c.addDiff s!"block poller enabled after tick: model={s'.enabled} impl={en}"
         else c
-      let c := track { c with st := s' } (delivered.getD [])
+      let lastNext := (pagesRaw.filterMap (·.2)).getLast?
+      let c := track { c with st := s', implFrom := if lastNext.isSome then lastNext else c.implFrom } (delivered.getD [])
       let grew : Bool := match cnt, pagesRaw.getLast? with | some cn, some (_, some nx) => decide (nx > cn) | _, _ => false
       ({ st with c := c, ticks := st.ticks + 1, pages := st.pages + pagesRaw.length, grew := st.grew + (if grew then 1 else 0) }, [])
   | _, _, _, _, _ => ({ st with c := c.addDiff "unparsable wtick line" }, [])
@@ -530,27 +548,29 @@ def doWheight (st : St) (fs : List String) : St × List String :=
     let (s', entries) := stepHeight cfg o height now before
     let model := sortStrs (entries.map fun e => showPub (pubOf e))
     let injected := reqs.any fun r => r.endsWith ">e"
-    -- Spec (C08) on what the implementation forwarded
-    let pend : List (PBlock × Unconf × Header) := before.pending.flatMap fun pb =>
-      match headerOf o pb with
-      | some h => pb.evs.map fun u => (pb, u, h)
-      | none => []
+    -- Spec (C08) on what the implementation forwarded, against everything delivered to the event loop so far
+    -- (independent of the model's state): some delivered event must justify each forwarded message.
+    let hdrs := (hdrT.filterMap fun (bh, h) => h.map fun h => (bh, h)) ++ c.hdrs
     let specFwd : Option String := impl.findSome? fun p =>
-      let cands : List (List (String × Bool)) := pend.filterMap fun (pb, u, h) =>
-        if showPub (pubOf (u, h)) ≠ p then none else
-        some [("poll-not-token-bridge", u.msg.sender == cfg.bridge),
-              ("poll-event-index", u.ev.idx == 0),
-              ("poll-not-canonical", o.main pb.block == some true && reqs.contains s!"main:{pb.block}>1"),
-              ("poll-height-not-final", !inRange h || heightFinal u.msg h height),
-              ("poll-mainnet-transfer-floor", !inRange h || floorOk cfg.mainnet u.msg h now)]
+      let cands : List (List (String × Bool)) := c.tracked.filterMap fun (u, _) =>
+        match hdrs.lookup u.ev.block with
+        | none => none
+        | some h =>
+          if showPub (pubOf (u, h)) ≠ p then none else
+          some [("poll-not-token-bridge", u.msg.sender == cfg.bridge),
+                ("poll-event-index", u.ev.idx == 0),
+                ("poll-not-canonical", o.main u.ev.block == some true && reqs.contains s!"main:{u.ev.block}>1"),
+                ("poll-height-not-final", !inRange h || heightFinal u.msg h height),
+                ("poll-mainnet-transfer-floor", !inRange h || floorOk cfg.mainnet u.msg h now)]
       match firstFailing cands with
       | some cl =>
-        if cl = "unknown" then
-          some (if c.fwdAll.contains p then s!"poll-forwarded-twice {p} was already forwarded earlier" else s!"poll-forwarded-altered {p} corresponds to no pending event")
+        if cl = "unknown" then some s!"poll-forwarded-altered {p} corresponds to no event delivered to the event loop"
         else some s!"{cl} forwarded {p} at height {height}"
       | none =>
         let good := cands.filter fun cd => cd.all (·.2)
-        if count p impl > good.length then some s!"poll-forwarded-twice {p} forwarded {count p impl} times for {good.length} pending event(s)" else none
+        if count p impl + count p c.fwdAll > cands.length then
+          some s!"poll-forwarded-twice {p} forwarded {count p impl + count p c.fwdAll} times for {cands.length} delivered event(s) ({good.length} eligible now)"
+        else none
     let c := match (if pan then some "watcher-panic handleEvents panicked" else specFwd) with | some s => c.addSpec s | none => c
     let c := if injected then { c with faulted := true } else c
     -- comparison with the model
@@ -567,7 +587,7 @@ def doWheight (st : St) (fs : List String) : St × List String :=
       else c
     -- liveness bookkeeping (C09): a delivered event whose block is canonical at every tick is owed to the signer
     let tracked := c.tracked.map fun (u, stayed) => (u, stayed && o.main u.ev.block == some true)
-    let c := { c with st := s', fwdAll := c.fwdAll ++ impl, tracked := tracked }
+    let c := { c with st := s', fwdAll := c.fwdAll ++ impl, tracked := tracked, hdrs := hdrs }
     let drain := (kvB fs "drain").getD false
     let c :=
       if drain && !exit && !c.faulted && before.alive then
@@ -605,6 +625,7 @@ def step (st : St) (line : String) : St × List String :=
         else if op = "tinfo" then doTinfo st id rest
         else if op = "hunconf" then doHunconf st id rest
         else if op = "reobs" then doReobs st id rest
+        else if op = "fheight" then doFheight st id rest
         else ({ st with n := st.n + 1 }, [s!"diff {id} unknown op {op}"])
       (st, out ++ out2)
   | _ => (st, [s!"diff ? unknown line: {line.take 80}"])
